@@ -323,7 +323,7 @@ pub fn run(run: &mut Run) {
         plan.mid = Some(bd(2, 1));
         plan.r960 = Some(bd(0, 0));
         plan.raws.push((Box::new(ThreeMen { bk: None }), bd(0, 0)));
-        plan.raws.push((Box::new(Castle { extra: 1 }), bd(0, 0)));
+        plan.raws.push((Box::new(Castle { extra: 1, ek_rank2: false }), bd(0, 0)));
         plan.raws.push((Box::new(EpUniverse::reduced()), bd(0, 0)));
     } else {
         plan.start = Some(bd(4, 1));
@@ -331,7 +331,7 @@ pub fn run(run: &mut Run) {
         plan.r960 = Some(bd(1, 0));
         plan.dfrc = Some((0..960, 1, bd(0, 0)));
         plan.raws.push((Box::new(ThreeMen { bk: None }), bd(1, 1)));
-        plan.raws.push((Box::new(Castle { extra: 2 }), bd(0, 0)));
+        plan.raws.push((Box::new(Castle { extra: 2, ek_rank2: false }), bd(0, 0)));
         plan.raws.push((Box::new(EpUniverse::full()), bd(0, 0)));
         plan.raws.push((Box::new(FourMen { kings: Some(six_king_placements()), with_flags: true }), bd(0, 0)));
     }
